@@ -5,7 +5,7 @@
 # the changed tree via VT_PKGCORE_ROOT and reports whether they raise VIOLATION.
 set -u
 SEED=$(readlink -f "$1"); shift
-PROP=$1
+PROP=$1; shift
 WT=/var/tmp/seedtry-$$
 cd /verif || exit 2
 git -C /repo worktree add -q --detach "$WT" HEAD || exit 2
